@@ -20,12 +20,14 @@ Inductive gen_partial_error : err -> Prop :=
 | gpe_field name : gen_partial_error (EMissingRequiredField name).
 
 (* no edge of the sub-group expansion of file [f] leads upwards: [rank] strictly decreases from the
-   section being expanded to every section its expansion recurses into *)
+   section being expanded to every section its expansion recurses into.  The table consulted is
+   [subgroups_for seg f]: the segment's sections_subgroups for a file, nothing for a group (a group
+   leaves the expansion to its files, so there is no constraint at the group itself) *)
 Definition chain_decreasing (seg : segment) (sections : list string) (rank : string -> nat)
            (f : file_info) : Prop :=
   forall section k others other,
     In k (sections_here f section sections) ->
-    lookup k (sections_subgroups seg) = Some others -> In other others ->
+    lookup k (subgroups_for seg f) = Some others -> In other others ->
     rank other < rank section.
 
 Fixpoint chain_decreasing_deep (seg : segment) (sections : list string) (rank : string -> nat)
